@@ -58,3 +58,82 @@ Proof.
   intros Hne Hn Ht Hp. unfold reshape_modes. destruct ns as [|c ins]; [congruence|].
   inversion Hn; subst. rewrite (reshape_loop_spec _ c ins tg []); auto; simpl; lia.
 Qed.
+
+(* ---- operators ---- *)
+Definition prodM (l : list (nat * nat)) : nat := prodl (map fst l).
+Definition prodN (l : list (nat * nat)) : nat := prodl (map snd l).
+Definition allpos2 (l : list (nat * nat)) : Prop := Forall (fun p => 1 <= fst p /\ 1 <= snd p) l.
+Lemma allpos2_fst l : allpos2 l -> allpos (map fst l).
+Proof. induction 1 as [|p l [H1 H2] Hl IH]; simpl; constructor; auto. Qed.
+Lemma allpos2_snd l : allpos2 l -> allpos (map snd l).
+Proof. induction 1 as [|p l [H1 H2] Hl IH]; simpl; constructor; auto. Qed.
+Lemma prod1_ones2 l : allpos2 l -> prodM l = 1 -> prodN l = 1 -> l = repeat (1, 1) (length l).
+Proof.
+  intros H HM HN. pose proof (prod1_ones _ (allpos2_fst l H) HM) as E1. pose proof (prod1_ones _ (allpos2_snd l H) HN) as E2.
+  rewrite !map_length in *. clear H HM HN. revert E1 E2. induction l as [|[a b] l IH]; intros E1 E2; [reflexivity|].
+  cbn [map fst snd length repeat] in *. injection E1 as Ea E1'. injection E2 as Eb E2'. subst a b. f_equal. apply IH; assumption.
+Qed.
+
+Lemma reshape_loop4_spec : forall fuel cm cn ins tg acc,
+  length ins + length tg < fuel -> 1 <= cm -> 1 <= cn -> allpos2 ins -> allpos2 tg ->
+  cm * prodM ins = prodM tg -> cn * prodN ins = prodN tg ->
+  reshape_loop4 fuel cm cn ins tg acc = Some (rev acc ++ tg).
+Proof.
+  induction fuel as [|f IH]; intros cm cn ins tg acc Hf Hcm Hcn Hi Ht HpM HpN; [lia|].
+  cbn [reshape_loop4]. destruct tg as [|[tm tn] tgt].
+  - rewrite app_nil_r. reflexivity.
+  - inversion Ht as [|? ? [Htm Htn] Ht2]; subst. cbn [fst snd] in Htm, Htn.
+    assert (HptM : prodM ((tm, tn) :: tgt) = tm * prodM tgt) by reflexivity.
+    assert (HptN : prodN ((tm, tn) :: tgt) = tn * prodN tgt) by reflexivity. rewrite HptM in HpM. rewrite HptN in HpN.
+    pose proof (prodl_pos _ (allpos2_fst tgt Ht2)) as HtMp. pose proof (prodl_pos _ (allpos2_snd tgt Ht2)) as HtNp.
+    pose proof (prodl_pos _ (allpos2_fst ins Hi)) as HiMp. pose proof (prodl_pos _ (allpos2_snd ins Hi)) as HiNp.
+    fold (prodM tgt) in HtMp. fold (prodN tgt) in HtNp. fold (prodM ins) in HiMp. fold (prodN ins) in HiNp.
+    destruct (Nat.eqb_spec (cm mod tm) 0) as [HmM|HmM]; destruct (Nat.eqb_spec (cn mod tn) 0) as [HmN|HmN]; cbn [andb].
+    + apply Nat.mod_divide in HmM; [|lia]. destruct HmM as [k Hk]. apply Nat.mod_divide in HmN; [|lia]. destruct HmN as [l Hl].
+      assert (HdM : cm / tm = k) by (subst cm; apply Nat.div_mul; lia).
+      assert (HdN : cn / tn = l) by (subst cn; apply Nat.div_mul; lia).
+      rewrite HdM, HdN.
+      destruct (Nat.ltb_spec 1 k) as [Hk1|Hk1]; destruct (Nat.ltb_spec 1 l) as [Hl1|Hl1]; cbn [orb];
+        try (rewrite (IH k l ins tgt ((tm, tn) :: acc));
+             [simpl; rewrite <- app_assoc; reflexivity | simpl in *; lia | nia | nia | assumption | assumption | subst cm; nia | subst cn; nia]).
+      assert (k = 1) by nia. assert (l = 1) by nia. subst k l. assert (cm = tm) by lia. assert (cn = tn) by lia. subst cm cn.
+      destruct ins as [|[m n] ins'].
+      * change (prodM []) with 1 in HpM. change (prodN []) with 1 in HpN.
+        assert (H1 : prodM tgt = 1) by nia. assert (H2 : prodN tgt = 1) by nia.
+        rewrite <- (prod1_ones2 tgt Ht2 H1 H2). simpl. rewrite <- app_assoc. reflexivity.
+      * inversion Hi as [|? ? [Hm Hn] Hi']; subst. cbn [fst snd] in Hm, Hn.
+        assert (HpiM : prodM ((m, n) :: ins') = m * prodM ins') by reflexivity.
+        assert (HpiN : prodN ((m, n) :: ins') = n * prodN ins') by reflexivity. rewrite HpiM in HpM. rewrite HpiN in HpN.
+        rewrite (IH m n ins' tgt ((tm, tn) :: acc));
+          [simpl; rewrite <- app_assoc; reflexivity | simpl in *; lia | lia | lia | assumption | assumption | nia | nia].
+    + destruct ins as [|[m n] ins'].
+      * exfalso. apply HmN. change (prodN []) with 1 in HpN. rewrite Nat.mul_1_r in HpN. subst cn. rewrite Nat.mul_comm. apply Nat.mod_mul. lia.
+      * inversion Hi as [|? ? [Hm Hn] Hi']; subst. cbn [fst snd] in Hm, Hn.
+        assert (HpiM : prodM ((m, n) :: ins') = m * prodM ins') by reflexivity.
+        assert (HpiN : prodN ((m, n) :: ins') = n * prodN ins') by reflexivity. rewrite HpiM in HpM. rewrite HpiN in HpN.
+        rewrite (IH (cm * m) (cn * n) ins' ((tm, tn) :: tgt) acc);
+          [reflexivity | simpl in *; lia | nia | nia | assumption | assumption | rewrite HptM; nia | rewrite HptN; nia].
+    + destruct ins as [|[m n] ins'].
+      * exfalso. apply HmM. change (prodM []) with 1 in HpM. rewrite Nat.mul_1_r in HpM. subst cm. rewrite Nat.mul_comm. apply Nat.mod_mul. lia.
+      * inversion Hi as [|? ? [Hm Hn] Hi']; subst. cbn [fst snd] in Hm, Hn.
+        assert (HpiM : prodM ((m, n) :: ins') = m * prodM ins') by reflexivity.
+        assert (HpiN : prodN ((m, n) :: ins') = n * prodN ins') by reflexivity. rewrite HpiM in HpM. rewrite HpiN in HpN.
+        rewrite (IH (cm * m) (cn * n) ins' ((tm, tn) :: tgt) acc);
+          [reflexivity | simpl in *; lia | nia | nia | assumption | assumption | rewrite HptM; nia | rewrite HptN; nia].
+    + destruct ins as [|[m n] ins'].
+      * exfalso. apply HmM. change (prodM []) with 1 in HpM. rewrite Nat.mul_1_r in HpM. subst cm. rewrite Nat.mul_comm. apply Nat.mod_mul. lia.
+      * inversion Hi as [|? ? [Hm Hn] Hi']; subst. cbn [fst snd] in Hm, Hn.
+        assert (HpiM : prodM ((m, n) :: ins') = m * prodM ins') by reflexivity.
+        assert (HpiN : prodN ((m, n) :: ins') = n * prodN ins') by reflexivity. rewrite HpiM in HpM. rewrite HpiN in HpN.
+        rewrite (IH (cm * m) (cn * n) ins' ((tm, tn) :: tgt) acc);
+          [reflexivity | simpl in *; lia | nia | nia | assumption | assumption | rewrite HptM; nia | rewrite HptN; nia].
+Qed.
+
+(* operators: every list of input mode pairs, every target list with the same row and column element counts: termination and exactly the requested pairs *)
+Theorem reshape_shape4 ns tg : ns <> [] -> allpos2 ns -> allpos2 tg -> prodM ns = prodM tg -> prodN ns = prodN tg ->
+  reshape_modes4 ns tg = Some tg.
+Proof.
+  intros Hne Hn Ht HM HN. unfold reshape_modes4. destruct ns as [|[m n] ins]; [congruence|].
+  inversion Hn as [|? ? [H1 H2] Hn']; subst. cbn [fst snd] in H1, H2.
+  rewrite (reshape_loop4_spec _ m n ins tg []); auto; simpl; lia.
+Qed.
